@@ -18,16 +18,18 @@ What is demanded / deliberately not demanded (statement in properties.jsonl is a
   * --no-ansi without --ansi => no ESC byte on either stream (also inside the error report); this is only
     a real demand on the terminal-like streams, which decorate by default (measured on the switch-free line).
     --ansi without --no-ansi => every marker (and the question prompt) is wrapped in SGR sequences on both
-    streams, pipe-like ones included; help page == the help page rendered on a forced-ANSI IO built by hand.
+    streams, pipe-like ones included.
     --ansi together with --no-ansi: contradictory demands, which one wins is NOT asserted (the text with
     SGR stripped still is).  Neither: the output must look like the switch-free baseline of that kind of
     stream (plain on pipe-like streams) - this is what the '--' clause refers to.
   * -n/--no-interaction => handler sees is_interactive() False, Question.ask returned its default, the
     input stream position did not move.  Without it (and without quiet) the typed answer is returned.
     With quiet but without -n nothing about the dialogue is asserted (silent).
-  * help switch behind the command path => status 0, handler not invoked, output of both streams (SGR
-    stripped) == output of `help <path>`.  version switch behind the path => status 0, handler not
-    invoked, display name and version on stdout.  Both: either page.  (Version *before* the path also
+  * help switch behind the command path => status 0, handler not invoked, both streams == the help page of
+    that command: `help <path>` run on pipe-like streams when the output has to be plain, the help command run
+    on a hand-built forced-ANSI IO when it has to be decorated (compared like with like: whether decoration
+    alters the text of a page is C11's question).  version switch behind the path => status 0, handler not
+    invoked, display name and version on stdout (decorated / plain as demanded).  Both: either page.  (Version *before* the path also
     works in the implementation; not asserted, see next point.)
   * a switch inserted before or inside the command path changes what the resolver sees (documented in
     DefaultResolver: command names must come before any option), so only the stream-level effects
@@ -219,9 +221,8 @@ def ref_pages(path):
                    Output(se, AnsiFormatter(app.config.style_set, True)))
     app.get_command("help").run(ArgvArgs([NAME, "help"] + list(path)), cio)
     ref = {"help_out": plain["out"], "help_err": plain["err"], "help_ansi_out": so.fetch(), "help_ansi_err": se.fetch()}
-    # should decoration change the text of the page (that would be C11's business) the exact decorated
-    # comparison is dropped and only "is decorated at all" is demanded
-    ref["ansi_same_text"] = strip_sgr(ref["help_ansi_out"]) == ref["help_out"] and strip_sgr(ref["help_ansi_err"]) == ref["help_err"]
+    if "\x1b" in ref["help_out"] + ref["help_err"] or "\x1b" not in ref["help_ansi_out"]:
+        raise RuntimeError("engine error: reference help pages: plain one decorated or forced-ANSI one not decorated")
     _REF[key] = ref
     return ref
 
@@ -322,29 +323,30 @@ def judge(info, variant, obs, count, tty=False):
         if quiet:
             return bad
         ref = ref_pages(info["path"])
-        sout, serr = strip_sgr(out), strip_sgr(err)
-        is_help = sout == ref["help_out"] and serr == ref["help_err"]
+        # the page is compared like with like: decorated output with the reference rendered on a hand-built
+        # forced-ANSI IO, plain output with `help <path>` on pipe-like streams.  (Whether decoration changes the
+        # text of a page is C11's question, not this one's.)
+        help_plain = (out, err) == (ref["help_out"], ref["help_err"])
+        help_ansi = (out, err) == (ref["help_ansi_out"], ref["help_ansi_err"])
+        is_help = help_ansi if decor else (help_plain if decor is False else (help_plain or help_ansi))
+        sout = strip_sgr(out)
         is_version = DISPLAY in sout and VER in sout
+        if decor:
+            count(("ansi_" if ansi else "ttydefault_") + which + sfx)
+            if "\x1b" not in out:
+                is_version = False  # the version is styled: forced / default decoration must show
+        elif decor is False and "\x1b" in out + err:
+            is_version = False
         if wants_help and not wants_version and not is_help:
-            v("help:page", "help switch behind the path: output differs from `help %s`" % " ".join(info["path"]),
-              [ref["help_out"][:300], ref["help_err"]], [out[:300], err[:200]])
+            v("help:page", "help switch behind the path: output differs from the %s help page of `%s`" % (
+                "decorated" if decor else "plain" if decor is False else "plain or decorated", " ".join(info["path"])),
+              [(ref["help_ansi_out"] if decor else ref["help_out"])[:300], ref["help_err"]], [out[:300], err[:200]])
         if wants_version and not wants_help and not is_version:
-            v("version:page", "version switch: display name and version not on standard output", [DISPLAY, VER], out[:200])
+            v("version:page", "version switch: display name and version (%s) not on standard output" % (
+                "decorated" if decor else "plain" if decor is False else "plain or decorated"), [DISPLAY, VER], out[:200])
         if wants_help and wants_version and not (is_help or is_version):
             v("help+version:page", "help and version switches: neither the help page nor name and version were printed",
               None, [out[:300], err[:200]])
-        if decor:
-            why = "--ansi" if ansi else "terminal-like streams, no ANSI switch"
-            count(("ansi_" if ansi else "ttydefault_") + which + sfx)
-            if is_help and not is_version and ((out != ref["help_ansi_out"] or err != ref["help_ansi_err"]) if ref["ansi_same_text"]
-                                               else "\x1b" not in out):
-                v("%s:help-page" % ("ansi" if ansi else "ttydefault"), "%s with the help switch: page is not the decorated help page" % why,
-                  ref["help_ansi_out"][:200], out[:200])
-            if is_version and not is_help and "\x1b" not in out:
-                v("%s:version-page" % ("ansi" if ansi else "ttydefault"), "%s with the version switch: the styled version is not decorated" % why,
-                  "ESC", out)
-        elif decor is False and not noansi and ("\x1b" in out or "\x1b" in err):
-            v("ansi:unrequested:%s" % which, "no ANSI switch, non-tty streams, but the page is decorated", "no ESC", out[:200])
         return bad
 
     # ---- the handler runs ------------------------------------------------------------------
